@@ -76,6 +76,23 @@ def _wd(G, x, y):
     return float(D[x, y])
 
 
+def _wwalkr(G, x, y, m, l):
+    """is there a walk of exactly m connections (m a natural number) from x to y with total length l?  (set of reachable (node, length) pairs, m steps)"""
+    A = _mat(G)
+    n = len(A)
+    if abs(m - round(m)) > 1e-9 or m < 0 or m > 4 * n:
+        return False
+    cur = {(int(x), 0.0)}
+    for _ in range(int(round(m))):
+        nxt = set()
+        for (u, ln) in cur:
+            for w in range(n):
+                if A[u, w] != 0:
+                    nxt.add((w, round(ln + float(A[u, w]), 9)))
+        cur = nxt
+    return any(u == int(y) and abs(ln - float(l)) < 1e-7 for (u, ln) in cur)
+
+
 def _sdist(G, x, y, n=None):
     A = (np.asarray(G) != 0)
     n = len(A)
@@ -102,7 +119,7 @@ def _walk(G, x, y, m):
 
 
 SPEC = {
-    'sdist': _sdist, 'walk': _walk, 'wd': _wd, 'Qrawg': _Qrawg, 'msq': (lambda W, c, x, k, n: float(sum(_modsum(_mat(W), c, x, m, n) ** 2 for m in range(int(k))))), 'QrawB': (lambda B, c, n: float((_mat(B)[:n, :n] * (np.asarray(c)[:n, None] == np.asarray(c)[None, :n])).sum())), 'umul': (lambda a, b: a * b), 'udiv': (lambda a, b: a / b),
+    'wwalkr': _wwalkr, 'sdist': _sdist, 'walk': _walk, 'wd': _wd, 'Qrawg': _Qrawg, 'msq': (lambda W, c, x, k, n: float(sum(_modsum(_mat(W), c, x, m, n) ** 2 for m in range(int(k))))), 'QrawB': (lambda B, c, n: float((_mat(B)[:n, :n] * (np.asarray(c)[:n, None] == np.asarray(c)[None, :n])).sum())), 'umul': (lambda a, b: a * b), 'udiv': (lambda a, b: a / b),
     'rcnt': lambda M, x, n: int(np.count_nonzero(_mat(M)[x, :n])), 'ccnt': lambda M, y, n: int(np.count_nonzero(_mat(M)[:n, y])),
     'rsum': lambda M, x, n: float(_mat(M)[x, :n].sum()), 'csum': lambda M, y, n: float(_mat(M)[:n, y].sum()),
     'rpos': lambda M, x, n: int((_mat(M)[x, :n] > 0).sum()), 'rneg': lambda M, x, n: int((_mat(M)[x, :n] < 0).sum()),
